@@ -41,12 +41,12 @@ func apiLevel(c *engine.Ctx, evals *int64) {
 			w.KDC.Expect.Check = false
 			asReq, err := messages.NewASReqForTGT(cworld.Realm, w.Config, types.PrincipalName{NameType: 1, NameString: []string{cworld.User}})
 			if err != nil {
-				engine.Fatal("NewASReqForTGT: %v", err)
+				engine.FailValid("messages.NewASReqForTGT", err)
 			}
 			asReq.ReqBody.Addresses = []types.HostAddress{{AddrType: 2, Address: []byte{10, 0, 0, 1}}, {AddrType: 2, Address: []byte{10, 0, 0, 2}}}
 			b, err := asReq.Marshal()
 			if err != nil {
-				engine.Fatal("marshal: %v", err)
+				engine.FailValid("ASReq.Marshal", err)
 			}
 			caddr := cs.caddr
 			w.KDC.Perturb = func(r *simkdc.Reply) { r.Enc.CAddr = caddr }
